@@ -65,12 +65,18 @@ func ShapeOf(e error) Shape {
 // equal, else a description and the type key (from a) of the innermost
 // node whose sub-trees agree but whose own text/arity differs.
 func Diff(a, b Shape) (desc string, owner string) {
+	desc, owner, _, _ = Diff4(a, b)
+	return
+}
+
+// Diff4 is Diff that also returns the two texts of the owner node.
+func Diff4(a, b Shape) (desc string, owner string, ta, tb string) {
 	var rec func(a, b Shape, path string) bool
 	rec = func(a, b Shape, path string) bool {
 		if len(a.Kids) != len(b.Kids) {
 			if desc == "" {
 				desc = fmt.Sprintf("%s: arity %d vs %d (types %s / %s)", path, len(a.Kids), len(b.Kids), a.Type, b.Type)
-				owner = a.Key
+				owner, ta, tb = a.Key, a.Text, b.Text
 			}
 			return false
 		}
@@ -83,7 +89,7 @@ func Diff(a, b Shape) (desc string, owner string) {
 		if ok && a.Text != b.Text {
 			if desc == "" {
 				desc = fmt.Sprintf("%s: text %q vs %q (types %s / %s)", path, a.Text, b.Text, a.Type, b.Type)
-				owner = a.Key
+				owner, ta, tb = a.Key, a.Text, b.Text
 			}
 			return false
 		}
